@@ -180,6 +180,28 @@ theorem result_eq_of_paths {K : Type} [PyNum K] (ρ : Rho K) (env : Env) (fuel :
     result ρ env fuel fn args st = c :=
   resultG_eq_of_paths obs ρ env fuel fn args st c h
 
+/-- the pruned paths (`Tree.pathsP`) of the symbolic run under observation `g` -/
+def obsPathsPG (g : Except Err (Val × St) → Obs) (env : Env) (fuel : Nat) (fn : String) (args : List Val)
+    (st : St) : List (List (BTerm × Bool) × Obs) :=
+  ((run env fuel fn args st).map g).pathsP []
+
+/-- the proof pattern with pruned paths -/
+theorem resultG_of_pathsP {K : Type} [PyNum K] (hrefl : ∀ x : K, PyNum.beq x x = true) (g : Except Err (Val × St) → Obs) (ρ : Rho K) (env : Env)
+    (fuel : Nat) (fn : String) (args : List Val) (st : St) (Q : CObs K → Prop)
+    (h : ∀ p ∈ obsPathsPG g env fuel fn args st, (∀ cb ∈ p.1, cb.1.eval ρ = cb.2) → Q (p.2.eval ρ)) :
+    Q (resultG g ρ env fuel fn args st) := by
+  have e : resultG g ρ env fuel fn args st = (((run env fuel fn args st).map g).denote ρ).eval ρ := by
+    unfold resultG sem
+    exact congrArg (Obs.eval ρ) (Tree.denote_map ρ g (run env fuel fn args st)).symm
+  rw [e]
+  exact Tree.denote_of_pathsP hrefl ρ (fun (o : Obs) => Q (o.eval ρ)) _ [] (by simp) h
+
+theorem resultG_eq_of_pathsP {K : Type} [PyNum K] (hrefl : ∀ x : K, PyNum.beq x x = true) (g : Except Err (Val × St) → Obs) (ρ : Rho K) (env : Env)
+    (fuel : Nat) (fn : String) (args : List Val) (st : St) (c : CObs K)
+    (h : ∀ p ∈ obsPathsPG g env fuel fn args st, (∀ cb ∈ p.1, cb.1.eval ρ = cb.2) → p.2.eval ρ = c) :
+    resultG g ρ env fuel fn args st = c :=
+  resultG_of_pathsP hrefl g ρ env fuel fn args st (fun r => r = c) h
+
 /-- after `apply result_eq_of_paths` and `show ∀ p ∈ <paths def>, _`: rewrite with the normal form
 of the paths (a `rfl` theorem), split into one goal per path (an implication from the path's conditions) -/
 macro "py_paths " t:term : tactic =>
